@@ -1,7 +1,11 @@
 """C04 — a leak is repaired only after being tagged, exactly after the configured delays.
 
 Lean: Props/C04.lean (C04_first_tag_wins, C04_end_date(_E), C04_untagged_natural(_E),
-C04_repair_needs_tag(_E), C04_not_earlier, C04_tag_needs_completed_survey, C04_delay_from_list).
+C04_repair_needs_tag(_E), C04_not_earlier, C04_never_later(_E), C04_natural_first(_E), C04_first_tag_stays(_E),
+C04_tag_needs_completed_survey, C04_tag_event_fields, C04_incomplete_survey_no_tags, C04_delay_from_list).
+`tagCalls`/`tagEvs`/`latestTaggingSurvey` are compared with the real ComponentLevelMethod.survey_site and
+`sampleDelay` with the real Source._get_rep_delay / _create_emission on every run (drv_emission ops
+`tagcalls`, `sampledelay`).
 Tie: real emission classes through real Component/Source vs drv_emission (same case set as C02) and
 trace conformance of whole simulations.  Oracle: an independent day-arithmetic specification of
 "first tag + max(1, repair delay + reporting delay), unless the natural end comes first" evaluated on
@@ -12,7 +16,7 @@ from harness import core
 from harness.props import _emission_common as EC
 
 MANIFEST_ENTRY = {
-    "text": "Lean theorem C04_repair_needs_tag (and its mixed-event lift _E) proves by induction over days, for every repairable emission, event schedule and horizon: a leak ended 'repaired by company c' has a first tag request, on a day T inside the period while it was active, issued by c, no tag request reached it on an earlier active day, and its end date is exactly T + max(1, repair delay + that request's reporting delay); C04_not_earlier: while waiting it is still active with an exact day count below the delay; C04_untagged_natural: without a company tag it ends only naturally after its natural in-period life; C04_end_date: end date = start + days active (incl. pre-period) for all four emission classes; C04_first_tag_wins; C04_tag_needs_completed_survey; C04_delay_from_list. Model tied to the real classes by differential correspondence on every run and by trace conformance of whole simulations; the oracle recomputes the expected end from the events by plain date arithmetic and checks whole-run repairs against logged tagging calls and completed surveys.",
+    "text": "Lean theorem C04_repair_needs_tag (and its mixed-event lift _E) proves by induction over days, for every repairable emission, event schedule and horizon: a leak ended 'repaired by company c' has a first tag request, on a day T inside the period while it was active, issued by c, no tag request reached it on an earlier active day, and its end date is exactly T + max(1, repair delay + that request's reporting delay); C04_not_earlier / C04_never_later(_E): while waiting it is still active with an exact day count below the delay - a tagged leak is never left active beyond the delays; C04_natural_first(_E): a leak that ended 'natural' ended on its natural end date and either no tag request reached it while active or the natural end was strictly before T + max(1, delays); C04_first_tag_stays(_E): whatever the status, the company / reporting delay / detection date on record are those of the first tag request; C04_untagged_natural; C04_end_date: end date = start + days active (incl. pre-period) for all four emission classes; C04_first_tag_wins; C04_tag_needs_completed_survey / C04_tag_event_fields / C04_incomplete_survey_no_tags over tagCalls/tagEvs/latestTaggingSurvey and C04_delay_from_list over sampleDelay - these four definitions are compared on every run with the REAL ComponentLevelMethod.survey_site (generated reports: complete / incomplete, measured rates < 0, 0, > 0) and the REAL Source._get_rep_delay / _create_emission (list / int / dataframe column; the drawn index is recorded from np.random.choice). Model tied to the real classes by differential correspondence on every run and by trace conformance of whole simulations; the oracle recomputes the expected end from the events by plain date arithmetic, checks whole-run repairs against logged tagging calls and completed surveys, and whole-run tagged leaks that were not repaired against never-later / natural-first / first-tag-stays.",
     "design_ref": "DESIGN.md 5.4, 4.1",
     "note": "convention fixed in DESIGN.md 5.4: with day granularity the earliest end is tag day + 1, delays 0 and 1 coincide (max 1 delta). trusted: Lean kernel + standard axioms; model tied by sampled/structured-exhaustive correspondence; harness wrappers that log tagging calls and survey steps (observation only)",
     "technique": "Lean 4 history-invariant proof over the emission state machine + differential correspondence + trace conformance + direct oracle",
@@ -81,11 +85,18 @@ def wholerun_record(ctx, res, rec):
             ctx.violate("C04:end-date!=start+days-active", "recorded end date differs from start + total days active", inp)
     if not rec["repairable"]:
         return
+    a = max(rec["start"], 0)
+    nat_end = a + max(1, rec["nrd"] - b4)
+    delays = [int(x) for x in cfg["repair_delay"]]
+    comp_methods = [m for m, v in cfg["methods"].items() if v["measurement_scale"] == "component"]
     # tagging calls reach every emission *active* at the component: calls before this emission's first
     # active day concern its predecessors at the same component
-    tag_calls = [e for e in rec["tags"] if e[0] == "tag" and e[1] >= max(rec["start"], 0)]
+    tag_calls = [e for e in rec["tags"] if e[0] == "tag" and e[1] >= a]
+    # ... and calls on or after the day it ended concern its successors
+    last_active = (rec["endDate"] - 1) if rec["endDate"] is not None else res.ndays - 1
+    live_calls = [e for e in tag_calls if e[1] <= last_active]
     if rec["status"] == "repaired" and rec["by"] not in ("natural",):
-        comp_methods = [m for m, v in cfg["methods"].items() if v["measurement_scale"] == "component"]
+        ctx.count("wholerun_program_repaired")
         mine = [e for e in tag_calls if e[5] == rec["by"]]
         if rec["by"] not in comp_methods:
             ctx.violate("C04:tagged-by-non-tagging-method", "leak repaired after a tag of a method that cannot tag", inp)
@@ -100,24 +111,208 @@ def wholerun_record(ctx, res, rec):
             if not done:
                 ctx.violate("C04:tag-without-completed-survey",
                             "tagging call without a completed survey of that site by that method that day", inp)
-            delays = [int(x) for x in cfg["repair_delay"]]
             ok = any(rec["endDate"] == T + max(1, d + first[6]) for d in delays)
-            nat_end = max(rec["start"], 0) + max(1, rec["nrd"] - b4)
             if not ok:
                 ctx.violate("C04:end-differs", "repair date is not tag date + max(1, repair delay + reporting delay) for any configured delay", inp)
             if rec["endDate"] > nat_end:
                 ctx.violate("C04:ended-later-than-specified", "program repair after the natural end", inp)
     if rec["status"] == "repaired" and rec["by"] == "natural":
-        nat_end = max(rec["start"], 0) + max(1, rec["nrd"] - b4)
         if rec["endDate"] != nat_end:
             ctx.violate("C04:natural-end-differs", "naturally ended leak did not end at its natural duration", inp)
+    # ---- leaks that were reached by a tagging call but did not end by a program repair ------------
+    # (never later / natural end first / first tag stays, on the implementation's own records and the
+    # logged tagging calls; the sampled repair delay is one of the configured ones)
+    if live_calls and not (rec["status"] == "repaired" and rec["by"] != "natural"):
+        first = live_calls[0]
+        T, trd = first[1], first[6]
+        dues = [T + max(1, d + trd) for d in delays]
+        inp2 = dict(inp, first_tagging_call=first, repair_due_for_each_configured_delay=dues, natural_end=nat_end,
+                    horizon=res.ndays)
+        if first[5] not in comp_methods:
+            ctx.violate("C04:tagged-by-non-tagging-method", "tagging call logged for a method that is not component-scale", inp2)
+        if rec["status"] == "active":
+            ctx.count("wholerun_tagged_still_active")
+            # overdue for every configured delay => must have been repaired (by that method)
+            if all(due <= min(nat_end, res.ndays) for due in dues):
+                ctx.violate("C04:overdue-tagged-leak-still-active",
+                            "a tagged leak is still active although tag date + max(1, repair delay + reporting delay) "
+                            "has passed for every configured repair delay", inp2)
+            if not rec["tagged"] or rec["by"] != first[5]:
+                ctx.violate("C04:first-tag-overwritten",
+                            "still-active tagged leak: `Tagged By` is not the method of the first tagging call "
+                            "that reached it", inp2)
+        elif rec["status"] == "repaired" and rec["by"] == "natural":
+            ctx.count("wholerun_tagged_ended_natural")
+            # natural end first: allowed only if for some configured delay the repair was due strictly
+            # after the natural end (on a tie the program repair wins)
+            if all(due <= nat_end for due in dues):
+                ctx.violate("C04:ended-natural-although-repair-due",
+                            "a tagged leak ended `natural` although tag date + max(1, repair delay + reporting "
+                            "delay) <= natural end for every configured repair delay", inp2)
+    elif not live_calls and rec["status"] == "active" and rec["tagged"]:
+        ctx.violate("C04:tagged-without-tag", "active leak is tagged but no tagging call of its component was logged while it was active", inp)
     ctx.count("wholerun_oracle_evaluated")
 
 
+# ------------------------------------------------------------------------------------------------
+# tie of `tagCalls` / `tagEvs` / `latestTaggingSurvey` to the real ComponentLevelMethod.survey_site
+# ------------------------------------------------------------------------------------------------
+SURVEY_RATES = [0, 0, -512, -1, 1, 256, 1024, 3584]  # scaled by 1024: 0, negative, tiny, dyadic positives
+
+
+def survey_spec(rng):
+    groups = []
+    for g in range(rng.choice([0, 1, 1, 2, 3])):
+        dets = [["comp%s_%d" % (rng.choice("AB"), rng.randint(1, 2)), rng.choice(SURVEY_RATES)]
+                for _ in range(rng.choice([0, 1, 2, 2, 3, 4]))]
+        groups.append(["eq%d" % rng.randint(1, 2), dets])
+    prev = rng.randint(-30, 40)
+    return {"complete": rng.random() < 0.6, "method": rng.randint(1, 5), "trd": rng.choice([0, 0, 1, 2, 5, 14]),
+            "crew": rng.randint(1, 4), "prev": prev, "cur": prev + rng.randint(0, 400), "groups": groups}
+
+
+def survey_specs_exhaustive():
+    """every (complete, rate pattern) over up to 3 detections with rates in {negative, 0, positive}"""
+    import itertools
+
+    for complete in (True, False):
+        for k in range(0, 4):
+            for rates in itertools.product([-512, 0, 1024], repeat=k):
+                for split in range(k + 1):
+                    groups = [["eq1", [["compA_%d" % (i + 1), r] for i, r in enumerate(rates[:split])]],
+                              ["eq2", [["compA_1", r] for r in rates[split:]]]]
+                    yield {"complete": complete, "method": 2, "trd": 3, "crew": 1, "prev": 4, "cur": 10, "groups": groups}
+
+
+def survey_oracle(ctx, spec, out):
+    """the property's own clauses on the real survey_site, independent of the model"""
+    inp = {"survey_spec": spec, "implementation": {k: v for k, v in out.items()}}
+    flat = [(eqg, comp, r) for eqg, ds in spec["groups"] for comp, r in ds]
+    want = [(eqg, comp, r) for (eqg, comp, r) in flat if r > 0] if spec["complete"] else []
+    got = [(c["eqg"], c["comp"], c["rate_scaled"]) for c in out["calls"]]
+    if not spec["complete"] and out["calls"]:
+        ctx.violate("C04:survey:tag-on-incomplete-survey", "tagging call issued by a survey step that did not complete the site", inp)
+    elif any(c["rate_scaled"] <= 0 for c in out["calls"]):
+        ctx.violate("C04:survey:tag-for-nonpositive-rate", "tagging call for a detection report with measured rate <= 0", inp)
+    elif got != want:
+        ctx.violate("C04:survey:tagging-calls-differ",
+                    "tagging calls are not exactly the detection reports with measured rate > 0, in report order", inp)
+    for c in out["calls"]:
+        if (c["company"], c["trd"], c["day"], c["t_since"], c["crew"]) != \
+                ("c%d" % spec["method"], spec["trd"], spec["cur"], spec["cur"] - spec["prev"], spec["crew"]):
+            ctx.violate("C04:survey:wrong-tagging-info",
+                        "a tagging call does not carry the method's name / reporting delay / current date / days since the last survey / crew", inp)
+            break
+    if out["sets"] != ([spec["cur"]] if spec["complete"] else []):
+        ctx.violate("C04:survey:latest-tagging-survey-date", "latest tagging survey date not set exactly once, to the current day, by a completed survey (and only then)", inp)
+    if out["tagged_daily"] != len(out["calls"]):
+        ctx.violate("C04:survey:tag-counter", "daily tagged-emissions counter differs from the number of tagging calls", inp)
+    if not out["returned_super_tuple"] or not out["super_called_with_same_objects"]:
+        ctx.violate("C04:survey:report-not-passed-through", "survey_site does not pass the generic survey step's result through", inp)
+
+
+def survey_stage(ctx):
+    from harness.adapters import emission as E
+
+    specs = list(survey_specs_exhaustive()) + [survey_spec(ctx.rng) for _ in range(ctx.pick(3000, 60000))]
+    model = core.LeanDriver("drv_emission").run([E.survey_model_line(sp) for sp in specs])
+    for sp, ml in zip(specs, model):
+        out = E.run_survey_site(sp)
+        il = E.survey_impl_line(sp, out)
+        ctx.evaluations += 1
+        if il != ml:
+            ctx.disagree("emission/survey_site(tagCalls,tagEvs,latestTaggingSurvey)", {"survey_spec": sp}, ml, il)
+            ctx.count("survey_site_disagree")
+        survey_oracle(ctx, sp, out)
+        n_pos = sum(1 for _, ds in sp["groups"] for _, r in ds if r > 0)
+        n_all = sum(len(ds) for _, ds in sp["groups"])
+        ctx.count("survey_site:%s" % ("complete" if sp["complete"] else "incomplete"))
+        if sp["complete"] and n_pos:
+            ctx.count("survey_site:complete-with-tagging-calls")
+        if n_all > n_pos:
+            ctx.count("survey_site:with-nonpositive-measured-rate")
+        if not sp["complete"] and n_pos:
+            ctx.count("survey_site:incomplete-with-positive-detections")
+        ctx.nontrivial.add(("survey", sp["complete"], min(n_pos, 4), min(n_all - n_pos, 4), len(sp["groups"])))
+    ctx.traces += len(specs)
+    ctx.count("survey_site_cases", len(specs))
+    ctx.sample({"survey_spec": specs[-1], "model": model[-1]})
+
+
+# ------------------------------------------------------------------------------------------------
+# tie of `sampleDelay` to the real Source._get_rep_delay / Source._create_emission
+# ------------------------------------------------------------------------------------------------
+def delay_case(rng):
+    kind = rng.choice(["list", "list", "list", "column", "column", "int", "missing-column"])
+    n = 1 if kind == "int" else rng.choice([1, 2, 2, 3, 4, 5, 8])
+    values = [rng.choice([0, 1, 2, 3, 7, 14, 30, 60, rng.randint(0, 90)]) for _ in range(n)]
+    return kind, values, rng.randrange(1 << 31)
+
+
+def delay_oracle(ctx, kind, values, seed, out):
+    inp = {"delay_case": [kind, values, seed], "implementation": out}
+    if kind == "missing-column":
+        if not out["exited"]:
+            ctx.violate("C04:delay:unknown-column-accepted", "a repair-delay column that does not exist did not stop the run", inp)
+        return
+    if out["exited"]:
+        ctx.violate("C04:delay:configured-delay-rejected", "_get_rep_delay exited on a valid configuration", inp)
+        return
+    if out["value"] not in values:
+        ctx.violate("C04:delay:not-from-configured-values", "the sampled repair delay is not one of the configured values", inp)
+    if out["emission_delay"] != out["value"]:
+        ctx.violate("C04:delay:emission-gets-other-delay",
+                    "the repair delay of a freshly created emission is not the value _get_rep_delay draws from the same generator state", inp)
+
+
+def delay_stage(ctx):
+    from harness.adapters import emission as E
+
+    cases = [("list", [3], 1), ("list", [2, 9], 2), ("int", [5], 3), ("column", [1, 2, 3], 4), ("missing-column", [1], 5)]
+    cases += [delay_case(ctx.rng) for _ in range(ctx.pick(1500, 20000))]
+    lines, owners = [], []
+    hit = {}
+    for kind, values, seed in cases:
+        out = E.run_get_rep_delay(kind, values, seed)
+        ctx.evaluations += 1
+        delay_oracle(ctx, kind, values, seed, out)
+        ctx.count("rep_delay:%s" % kind)
+        if kind == "missing-column" or out["exited"]:
+            continue
+        if kind == "int":
+            idx = 0  # no draw: the model's list is the singleton
+        else:
+            idx = out["index"]
+            if idx is None or out.get("index_value") != out["value"]:
+                # the model draws one element through np.random.choice; the implementation did not
+                ctx.disagree("emission/_get_rep_delay(sampleDelay)", {"delay_case": [kind, values, seed]},
+                             "one np.random.choice draw over the configured values, value = values[index]",
+                             "draw recorded: index %r, value %r" % (idx, out["value"]))
+                ctx.count("rep_delay_disagree")
+                continue
+            hit.setdefault(len(values), set()).add(idx)
+        lines.append("sampledelay [%s] %d" % (",".join(str(v) for v in values), idx))
+        owners.append((kind, values, seed, out))
+    model = core.LeanDriver("drv_emission").run(lines)
+    for (kind, values, seed, out), ml in zip(owners, model):
+        if ml != str(out["value"]):
+            ctx.disagree("emission/_get_rep_delay(sampleDelay)", {"delay_case": [kind, values, seed]}, ml, str(out["value"]))
+            ctx.count("rep_delay_disagree")
+        ctx.nontrivial.add(("delay", kind, len(values), out["index"]))
+    ctx.traces += len(cases)
+    ctx.extra["rep_delay_indices_drawn"] = {str(n): sorted(v) for n, v in sorted(hit.items())}
+    ctx.sample({"delay_case": list(cases[1]), "model": model[1] if len(model) > 1 else None})
+
+
 def run(ctx):
-    ctx.rule = ("same case set as C02 (structured-exhaustive core + random small/large, tag and detection-only "
-                "events, up to 3 tag requests incl. same-day and post-repair ones); expected end recomputed by "
-                "date arithmetic; whole simulations: repairs vs logged tagging calls and completed surveys")
+    ctx.rule = ("same case set as C02 (structured-exhaustive core over reachable starts: persistent and intermittent kinds, "
+                "one tag with reporting delay {0,2}, two tags with reporting delays {0,2}x{0,2} and different companies; + "
+                "random small/large, tag and detection-only events, up to 3 tag requests incl. same-day and post-repair ones); "
+                "expected end recomputed by date arithmetic; the real ComponentLevelMethod.survey_site on generated reports "
+                "(complete / incomplete, measured rates <0, 0, >0; exhaustive up to 3 detections + random) vs tagCalls/tagEvs; "
+                "the real Source._get_rep_delay/_create_emission (list / int / column / unknown column) vs sampleDelay with the "
+                "drawn index recorded; whole simulations: repairs vs logged tagging calls and completed surveys, tagged leaks "
+                "that were not repaired vs never-later / natural-first / first-tag-stays")
     core.lean_stage(ctx, MODULE, FILE, drivers=["drv_emission"])
     cases = EC.build_cases(ctx)
     results = EC.correspond(ctx, cases)
@@ -127,21 +322,44 @@ def run(ctx):
     for (c, res, ml, il) in results[:3]:
         ctx.sample({"case": list(c), "impl": il.split(" | ")[0], "expected": expected(c)})
     EC.shared_component_stage(ctx, lambda ctx, case, res, base, w: oracle_case(ctx, case, res))
+    survey_stage(ctx)
+    delay_stage(ctx)
     EC.wholerun_stage(ctx, 2, 12, wholerun_record)
+    EC.finish_hit_rates(ctx)
+    for k in ("wholerun_program_repaired", "wholerun_tagged_still_active", "wholerun_tagged_ended_natural"):
+        ctx.counts.setdefault(k, 0)
+        if ctx.counts[k] == 0:
+            ctx.note("whole runs of this seed: %s = 0 - the corresponding whole-run oracle was not exercised "
+                     "(the unit and shared-component stages cover the clause)" % k)
+    ctx.extra["wholerun_evidence"] = {k: v for k, v in sorted(ctx.counts.items()) if k.startswith("wholerun_")}
 
 
 def replay(ctx, data):
     inp = data.get("input", {})
-    if "case" not in inp:
+    if "survey_spec" in inp:
+        from harness.adapters import emission as E
+
+        out = E.run_survey_site(inp["survey_spec"])
+        survey_oracle(ctx, inp["survey_spec"], out)
+        print("survey_site :", out)
+    elif "delay_case" in inp:
+        from harness.adapters import emission as E
+
+        kind, values, seed = inp["delay_case"]
+        out = E.run_get_rep_delay(kind, values, seed)
+        delay_oracle(ctx, kind, values, seed, out)
+        print("_get_rep_delay :", out)
+    elif "case" not in inp:
         print("replay: not a single-emission case:", data.get("signature"), data.get("broken_obligations"))
         print(str(inp)[:2000])
         return 1
-    c = inp["case"]
-    case = tuple(c[:8]) + ([tuple(e) for e in c[8]],)
-    res = EC.impl_result(case)
-    oracle_case(ctx, case, res)
-    print("implementation:", res)
-    print("expected      :", expected(case))
+    else:
+        c = inp["case"]
+        case = tuple(c[:8]) + ([tuple(e) for e in c[8]],)
+        res = EC.impl_result(case)
+        oracle_case(ctx, case, res)
+        print("implementation:", res)
+        print("expected      :", expected(case))
     for v in ctx.violations:
         print("oracle:", v["signature"], "-", v["what"])
     return 1 if ctx.violations else 0
